@@ -776,7 +776,9 @@ void i_generate_node (parse_node_t * expr) {
               {
                 if (expr->kind == NODE_SWITCH_STRINGS)
                   {
-                    if (pn->r.number)
+                    /* "case 0:" is a NODE_CASE_NUMBER; string number 0 (the
+                     * name of the file) is a string like every other */
+                    if (pn->kind == NODE_CASE_STRING)
                       {
                         ins_intptr ((intptr_t)PROG_STRING (pn->r.number));
                       }
